@@ -26,6 +26,7 @@ func init() {
 	register("C07", &core.Rule{ID: "C07.1", Title: "no error dies unread on the decode path", Mod: core.ModRoot, Floor: 150, Run: c07_1, Canary: c07_1Canary})
 	register("C07", &core.Rule{ID: "C07.2", Title: "publish-before-init fields are nil-tested before use", Mod: core.ModRoot, Floor: 3, Run: c07_2})
 	register("C14", &core.Rule{ID: "C14.9", Title: "a stream whose reader could not be opened (possibly refused by the limit itself) is never dereferenced: publish-before-init fields are nil-tested before use", Mod: core.ModRoot, Floor: 3, Run: c07_2})
+	register("C14", &core.Rule{ID: "C14.10", Title: "records collected before a failure of Consume are released (they do not stay counted against the limit after a refusal)", Mod: core.ModRoot, Floor: 2, Run: c07_4})
 	register("C07", &core.Rule{ID: "C07.4", Title: "payload count check dominates success; failures release", Mod: core.ModRoot, Floor: 2, Run: c07_4})
 	register("C07", &core.Rule{ID: "C07.5", Title: "RelatedDataFrom rejects unknown and duplicated payloads", Mod: core.ModRoot, Floor: 6, Run: c07_5})
 	register("C07", &core.Rule{ID: "C07.7", Title: "possibly-absent field ids are guarded before indexing", Mod: core.ModRoot, Floor: 30, Run: c07_7, Canary: c07_7Canary})
@@ -692,6 +693,58 @@ func c07_4(c *core.Ctx, p *core.Prog) {
 		}
 	})
 	c.Check(okRel, "failure-release", p.Pos(fn.Pos()), core.FuncName(fn), "a deferred function releases the collected records when an error is returned", "records collected before a failure are not released by a deferred function on every error return (memory accounted to the consumer's limit leaks)")
+	// the deferred release works on the named result: once a record was collected, no return may replace
+	// the result by something else (`return nil, err` empties it before the deferred function runs)
+	if okRel && recsObj != nil {
+		var cell *ssa.Alloc
+		core.EachInstr(fn, func(i ssa.Instruction) {
+			if al, ok := i.(*ssa.Alloc); ok && al.Comment == recsObj.Name() && cell == nil {
+				if _, isSl := al.Type().(*types.Pointer).Elem().Underlying().(*types.Slice); isSl {
+					cell = al
+				}
+			}
+		})
+		if cell == nil {
+			c.Undecided("failure-release|result", p.Pos(fn.Pos()), core.FuncName(fn), "named result holding the collected records not found")
+		} else {
+			var collects, replaces []*ssa.Store
+			for _, r := range core.Referrers(cell) {
+				st, ok := r.(*ssa.Store)
+				if !ok || st.Addr != ssa.Value(cell) {
+					continue
+				}
+				grows := core.DerivesFrom(st.Val, func(v ssa.Value) bool {
+					cl, ok := v.(*ssa.Call)
+					if !ok {
+						return false
+					}
+					b, ok := cl.Call.Value.(*ssa.Builtin)
+					return ok && b.Name() == "append"
+				})
+				keeps := core.DerivesFrom(st.Val, func(v ssa.Value) bool {
+					u, ok := v.(*ssa.UnOp)
+					return ok && u.Op == token.MUL && u.X == ssa.Value(cell)
+				})
+				switch {
+				case grows:
+					collects = append(collects, st)
+				case !keeps:
+					replaces = append(replaces, st)
+				}
+			}
+			bad := ""
+			for _, rp := range replaces {
+				for _, cs := range collects {
+					if core.Reachable(fn, cs, rp) {
+						bad = p.Pos(rp.Pos())
+					}
+				}
+			}
+			c.Check(bad == "", "failure-release|result", p.Pos(fn.Pos()), core.FuncName(fn),
+				"no return replaces the collected records before the deferred release runs",
+				"a return at "+bad+" replaces the collected records (e.g. `return nil, err`) before the deferred release, which works on that named result, has run: the records retained for the earlier payloads of the batch are never released and stay counted against the memory limit, Close included")
+		}
+	}
 }
 
 // ---------------- C07.5 ----------------
